@@ -540,7 +540,7 @@ def _restore_closure_once(tree, rel, b, known, stats):
     if any(isinstance(n_, FN) and similarity(bnode, n_) >= sim for n_ in ast.walk(M) if n_ is not M):
       continue
     # the reference closure is still there under another name (a nested function of the caller about as similar): the new helper is just a helper
-    if any(isinstance(n_, FN) and n_ is not G and similarity(bnode, n_) >= min(sim, 0.62) - 0.1 for n_ in ast.walk(G)):
+    if any(isinstance(n_, FN) and n_ is not G and n_ is not M and not any(n_ is x_ for x_ in ast.walk(M)) and similarity(bnode, n_) >= min(sim, 0.62) - 0.1 for n_ in ast.walk(G)):
       continue
     pq = fq.rsplit('.', 1)[0]
     P = G if pq == gq else have.get(pq)
